@@ -942,6 +942,8 @@ class Interp:
             return a is b or (type(a) is type(b) and a == b)
         if a is Ellipsis or b is Ellipsis:
             return a is b
+        if isinstance(a, TypeTok) and isinstance(b, TypeTok):
+            return a.name == b.name  # a type object is a singleton: the model may hold several tokens for it
         return a is b
 
     def equals(self, a: Any, b: Any) -> Any:
@@ -984,7 +986,10 @@ class Interp:
 
         if isinstance(container, dict):
             if isinstance(item, (SV, SB)):
-                raise OutOfReach("symbolic dict key membership")
+                from .sym import bool_or
+
+                # a cache keyed by a symbolic number: the key is present iff it EQUALS a stored key
+                return bool_or(*[self.equals(k, item) for k in container if isinstance(k, (int, Fraction, SV))])
             return any(self._key_eq(k, item) for k in container)
         if isinstance(container, (list, tuple, set, frozenset, GenList)):
             items = container.items if isinstance(container, GenList) else list(container)
